@@ -181,6 +181,7 @@ class Replayer:
         self.pa = load()
         from pyannote.core import Segment
         self.Segment = Segment
+        self.last_other = None
 
     def build_other(self, which, history):
         if which == "fixed":
@@ -208,6 +209,7 @@ class Replayer:
                 c = new
             elif k in ("merge_in", "merge_out", "plus"):
                 other, om = self.build_other(op[1], history_before)
+                self.last_other = other
                 before_other = snap_key(snapshot(other))
                 if k == "merge_in":
                     r = c.merge(other, in_place=True)
@@ -269,36 +271,47 @@ class Replayer:
                     problems.append(f"{op[0]} changed the continuum it was called on")
             m = nm
             problems += compare(c, m)
-            if keep and not problems:
+            if (keep or op[0] == "merge_in") and not problems:
                 problems += self.independence(history)
         if check:
             return c, m, problems, {}
         return c, m
 
     def independence(self, history):
-        """history ends with copy / merge_out / plus: mutating the result must not change the source and
-        vice versa (checked on a separate replay, so the explored state is not disturbed)."""
+        """history ends with copy / merge_out / plus / merge_in: the result shares no mutable state with the
+        continuum it was called on nor with the merged argument - mutating any one of them leaves the others
+        unchanged (checked on separate replays, so the explored state is not disturbed)."""
         probs = []
-        for direction in ("result", "source"):
+        opname = history[-1][0]
+        roles = ["result", "source"] + (["argument"] if opname in ("merge_in", "merge_out", "plus") else [])
+        for mutated in roles:
             c, _ = self.run(history[:-1], check=False)
+            self.last_other = None
             derived, exc, _, keep = self.apply(c, history[-1], history[:-1])
-            if exc is not None or not keep:
+            if exc is not None:
                 return probs
-            src = keep[0]
-            target, witness = (derived, src) if direction == "result" else (src, derived)
-            before = snap_key(snapshot(witness))
+            objs = {"result": derived, "source": keep[0] if keep else None, "argument": self.last_other}
+            if opname == "merge_in":
+                objs["source"] = None  # the result IS the source
+            target = objs.get(mutated)
+            if target is None:
+                continue
+            witnesses = {k: o for k, o in objs.items() if k != mutated and o is not None and o is not target}
+            before = {k: snap_key(snapshot(o)) for k, o in witnesses.items()}
             try:
                 target.add("a", self.Segment(7, 9), "fresh")
                 target.add_annotator("zz")
                 for a in list(target.annotators):
-                    for u in list(target.iter_annotator(a))[:1]:
-                        target.remove(a, u)
+                    us = list(target.iter_annotator(a))
+                    if us:
+                        target.remove(a, us[0])
+                    target.add(a, self.Segment(11, 12), "fresh2")
                 target.reset_bounds()
             except Exception as e:  # noqa
-                probs.append(f"mutating the {direction} of {history[-1][0]} raised {type(e).__name__}: {e}")
-            if snap_key(snapshot(witness)) != before:
-                probs.append(f"mutating the {direction} of {history[-1][0]} changed the "
-                             f"{'source' if direction == 'result' else 'result'}")
+                probs.append(f"mutating the {mutated} of {opname} raised {type(e).__name__}: {e}")
+            for k, o in witnesses.items():
+                if snap_key(snapshot(o)) != before[k]:
+                    probs.append(f"mutating the {mutated} of {opname} changed its {k}")
         return probs
 
 
